@@ -66,18 +66,18 @@ where
 // NOTE: yes, I know the = / => distinction is ugly
 macro_rules! like_try_into {
     ($self:ident, $source:ty = $target:ty, $w:ident, $m:ident, $c:ident) => {{
-        let min = <$target>::min_value() as $source;
-        let max = <$target>::max_value() as $source;
-        if *$self <= max && *$self >= min {
+        let min = <$target>::min_value() as i128;
+        let max = <$target>::max_value() as i128;
+        if *$self as i128 <= max && *$self as i128 >= min {
             $w.$m(*$self as $target)
         } else {
             Err(bad($self, $c))
         }
     }};
     ($self:ident, $source:ty => $target:ty, $w:ident, $m:ident, $c:ident) => {{
-        let min = <$target>::min_value() as $source;
-        let max = <$target>::max_value() as $source;
-        if *$self <= max && *$self >= min {
+        let min = <$target>::min_value() as i128;
+        let max = <$target>::max_value() as i128;
+        if *$self as i128 <= max && *$self as i128 >= min {
             $w.$m::<LittleEndian>(*$self as $target)
         } else {
             Err(bad($self, $c))
